@@ -75,7 +75,7 @@ type Prop struct {
 
 var registry = map[string]*Prop{}
 
-func Register(p *Prop) { registry[p.ID] = p }
+func Register(p *Prop)    { registry[p.ID] = p }
 func Get(id string) *Prop { return registry[id] }
 func IDs() []string {
 	var ids []string
@@ -97,14 +97,15 @@ type Ctx struct {
 	Dir     string
 	Replay  bool
 
-	mu       sync.Mutex
-	res      Result
-	shapes   map[uint64]struct{}
-	journal  *os.File
-	curCase  string
-	quarant  map[string]bool
-	maxSamp  int
-	violSeen map[string]int
+	mu        sync.Mutex
+	res       Result
+	shapes    map[uint64]struct{}
+	journal   *os.File
+	lastInput *os.File
+	curCase   string
+	quarant   map[string]bool
+	maxSamp   int
+	violSeen  map[string]int
 }
 
 func NewCtx(p *Prop, seed int64, tier string, mode Mode, shard, nshards int, dir string) *Ctx {
@@ -160,6 +161,30 @@ func (c *Ctx) Journal(caseID string, extra string) {
 }
 
 func (c *Ctx) CurCase() string { return c.curCase }
+
+// JournalInput saves the raw input of the imminent call (overwritten each time)
+// so that a process death can be attributed to the exact bytes.
+func (c *Ctx) JournalInput(entry string, input []byte) {
+	if c.Dir == "" {
+		return
+	}
+	if c.lastInput == nil {
+		f, err := os.OpenFile(fmt.Sprintf("%s/lastinput.%s.%d", c.Dir, c.Mode.Name, c.Shard), os.O_CREATE|os.O_WRONLY|os.O_TRUNC, 0o644)
+		if err != nil {
+			return
+		}
+		c.lastInput = f
+	}
+	buf := make([]byte, 0, len(entry)+1+2*len(input))
+	buf = append(buf, entry...)
+	buf = append(buf, ' ')
+	const hexd = "0123456789abcdef"
+	for _, b := range input {
+		buf = append(buf, hexd[b>>4], hexd[b&15])
+	}
+	c.lastInput.WriteAt(buf, 0)
+	c.lastInput.Truncate(int64(len(buf)))
+}
 
 func (c *Ctx) Eval(n int) {
 	c.mu.Lock()
